@@ -303,6 +303,31 @@ def run(ctx):
                 finally:
                     g.config['answers'] = saved
     flush()
+    # ---------- D. a grouping can also just PERMUTE: every group a single input, groups numbered in another order than the boxes
+    for it in range(ctx.scale(60, 800)):
+        pal = GG.DYAD
+        n = rng.randint(2, 4)
+        perm = list(range(1, n + 1)); rng.shuffle(perm)
+        subs = [GG.build_leaf(rng, pal, wrong_msg=rng.choice(['', 'w%d' % j])) for j in range(n)]
+        try:
+            built = GG.build_list(rng, pal, subs, [GG.gen_item_answers(rng, pal, 2) for _ in range(n)], ordered=True, partial_credit=True, grouping=perm)
+        except Exception as e:
+            ctx.count('config_rejected:' + type(e).__name__); continue
+        g = built.grader
+        for _ in range(3):
+            inp = [rng.choice(GG.INPUTS) for _ in range(n)]
+            kind, val = GG.run_impl(lambda: g.check(None, inp))
+            if kind == 'out':
+                ents = val['input_list']
+                for i in range(n):
+                    gi = perm[i] - 1                       # box i belongs to group perm[i]: graded by that group's subgrader against that group's answer
+                    kk, rr = GG.run_impl(lambda: g.config['subgraders'][gi].check(g.config['answers'][0][gi], inp[i]))
+                    if kk == 'out' and (len(ents) != n or GG.canon_result(ents[i]) != GG.canon_result(rr)):
+                        ctx.violation('permuting grouping: the result at box %d is not that of its own group (%d)' % (i + 1, perm[i]),
+                                      {'cfg': built.desc['cfg'], 'input': inp}, impl=GG.canon_result(val), expected=GG.canon_result(rr))
+                        break
+            record(built, inp, kind, val, perm != sorted(perm), 'grouped:singleton-permutation')
+    flush()
 
 
 def search(ctx):
